@@ -106,14 +106,14 @@ def generated_programs(ctx, n):
 
 
 # ------------------------------------------------------------------------------------------------ one program
-def run_exe(exe, timeout=120):
+def run_exe(exe, timeout=900):
     """a native Wa executable zero-fills its whole linear memory byte by byte at start-up (64 MB): seconds on a loaded machine.
     A timeout is re-tried once with a much longer limit before it counts."""
     try:
         p = subprocess.run([exe], capture_output=True, timeout=timeout)
     except subprocess.TimeoutExpired as e:
-        if timeout < 600:
-            return run_exe(exe, 600)
+        if timeout < 900:
+            return run_exe(exe, 900)
         return {"rc": "timeout", "out": (e.stdout or b"").decode("utf-8", "replace"), "err": ""}
     return {"rc": p.returncode, "out": p.stdout.decode("utf-8", "replace"), "err": p.stderr.decode("utf-8", "replace")[-300:]}
 
@@ -132,7 +132,7 @@ def one_program(ctx, B, h, wa, name, path):
     shutil.copy(path, src)
     res = {"name": name, "path": path}
     # the WAT (and complete assembly text) the native build is made from
-    r = subprocess.run([h, "walinux", src, os.path.join(d, "prog.wat"), os.path.join(d, "prog.h.s")], capture_output=True, text=True, timeout=300)
+    r = subprocess.run([h, "walinux", src, os.path.join(d, "prog.wat"), os.path.join(d, "prog.h.s")], capture_output=True, text=True, timeout=900)
     if r.returncode == 3:
         res["verdict"] = "rejected:front-end"          # does not compile for the linux target: no native build exists
         res["why"] = r.stderr[-200:]
@@ -148,7 +148,7 @@ def one_program(ctx, B, h, wa, name, path):
     use_cli = ext == ".wa" and not os.environ.get("C02_FORCE_HARNESS")      # (debug aid: build everything through the harness path)
     if use_cli:
         try:
-            r = subprocess.run([wa, "native", "build", "-o", exe, src], capture_output=True, text=True, timeout=300, cwd=d)
+            r = subprocess.run([wa, "native", "build", "-o", exe, src], capture_output=True, text=True, timeout=900, cwd=d)
         except subprocess.TimeoutExpired:
             res["verdict"] = "rejected:native-build-timeout"
             return res
@@ -167,7 +167,7 @@ def one_program(ctx, B, h, wa, name, path):
         except OSError:
             pass
     else:
-        r = subprocess.run(["gcc", asm, "-o", exe] + GCC_ARGS, capture_output=True, text=True, timeout=300)
+        r = subprocess.run(["gcc", asm, "-o", exe] + GCC_ARGS, capture_output=True, text=True, timeout=900)
         if r.returncode != 0:
             msg = sorted(set(re.findall(r"Error: (.*)", r.stderr)))
             res["verdict"] = "rejected:gcc"
@@ -183,7 +183,7 @@ def one_program(ctx, B, h, wa, name, path):
     res["lines"] = ref["out"].count("\n")
     if use_cli:
         try:
-            w = subprocess.run([wa, "run", src], capture_output=True, timeout=300, cwd=d)
+            w = subprocess.run([wa, "run", src], capture_output=True, timeout=900, cwd=d)
             # (on a trap `wa run` prints the runtime's error text to stdout: only clean exits are comparable)
             res["wasm_target_same"] = (w.stdout.decode("utf-8", "replace") == ref["out"]) if (w.returncode == 0 and ref["st"] == "ok") else None
             if res["wasm_target_same"] is False:
@@ -217,7 +217,7 @@ def one_program(ctx, B, h, wa, name, path):
         p = os.path.join(d, "rep_%s.s" % tag)
         with open(p, "w") as f:
             f.write(t)
-        r = subprocess.run(["gcc", p, "-o", p[:-2] + ".exe"] + GCC_ARGS, capture_output=True, text=True, timeout=300)
+        r = subprocess.run(["gcc", p, "-o", p[:-2] + ".exe"] + GCC_ARGS, capture_output=True, text=True, timeout=900)
         if r.returncode != 0:
             return None, applied
         return run_exe(p[:-2] + ".exe"), applied
@@ -307,7 +307,7 @@ def run_programs(ctx, B, h, dist, samples, nontrivial):
         if r["needed"] is None:
             ctx.violation("native:unclassified", "%s: native executable differs from WebAssembly at output line %d (native %r, wasm %r) and no known repair explains it; after all repairs: %s" % (
                 name, r["first_diff"]["line"], r["first_diff"]["native"][:60], r["first_diff"]["wasm"][:60], r.get("after_all_repairs")),
-                {"program": name, "first_diff": r["first_diff"], "after_all_repairs": r.get("after_all_repairs"), "source": src[:4000]})
+                {"program": name, "first_diff": r["first_diff"], "after_all_repairs": r.get("after_all_repairs"), "source": src})
         else:
             for nm in r["needed"]:
                 if nm.startswith("ins:"):
